@@ -233,6 +233,20 @@ func NewBloomSearchEngine(config BloomSearchEngineConfig, metaStore MetaStore, d
 	}, nil
 }
 
+// rejectQueuedRequests answers every request still sitting in ingestChan with
+// ErrEngineStopped. Delivery honors ctx, like every other done-channel send on
+// the shutdown path.
+func (b *BloomSearchEngine) rejectQueuedRequests(ctx context.Context) {
+	for {
+		select {
+		case req := <-b.ingestChan:
+			sendOptionalWithContext(ctx, req.doneChan, ErrEngineStopped)
+		default:
+			return
+		}
+	}
+}
+
 // normalizeCompression maps the empty compression value to CompressionNone.
 // Files written before construction-time normalization carry "" in block
 // metadata (the field marshals with omitempty) and their row data is
@@ -287,11 +301,20 @@ func (b *BloomSearchEngine) Stop(ctx context.Context) error {
 
 	b.stateMu.Lock()
 	b.stopped = true
+	started := b.started
 	verifEv("stop_stopped")
 	b.stateMu.Unlock()
 
 	// Signal workers to stop
 	b.cancel()
+
+	if !started {
+		// No ingest worker exists to drain ingestChan. Requests accepted
+		// before Stop would otherwise never be answered while Stop returns
+		// nil: tell their waiters the engine stopped. stopped is set, so no
+		// new request can land in the channel behind this drain.
+		b.rejectQueuedRequests(ctx)
+	}
 
 	// Wait for workers to finish with timeout
 	done := make(chan struct{})
